@@ -219,7 +219,13 @@ impl Directive {
                     _ => SegmentType::Code,
                 };
 
-                if !context.last_segment().unwrap().borrow().is_empty() {
+                // an empty segment that carries an .org belongs to the memory it was given in: it stays behind
+                let keeps_origin = {
+                    let last = context.last_segment().unwrap();
+                    let last = last.borrow();
+                    last.address != 0 && last.t != new_type
+                };
+                if !context.last_segment().unwrap().borrow().is_empty() || keeps_origin {
                     context.add_segment(Segment::new(new_type));
                 } else {
                     context.last_segment().unwrap().borrow_mut().t = new_type;
